@@ -42,6 +42,7 @@ type Contract struct {
 	MayPanic    bool
 	AssumeFrame bool
 	IsFunction  bool
+	Content     bool
 	Callbacks   map[string]bool
 	DeadCode    map[string]bool
 	AllocBound  ast.Expr
@@ -320,6 +321,9 @@ func parseContractFile(path, pkg string) (*ContractFile, error) {
 			cur.MayPanic = true
 		case "assume-frame":
 			cur.AssumeFrame = true
+		case "content":
+			// byte-content axioms for append/copy/string conversions inside this function (quantified)
+			cur.Content = true
 		case "function":
 			// result is a function of the arguments only (no heap reads or writes): calls are modelled by an
 			// uninterpreted function constrained by the postconditions; checked: the body must not touch the heap
